@@ -38,6 +38,7 @@ def dispatch (j : Json) : Except String Json := do
   | "leaves" => Driver.ResolveD.handleLeaves j
   | "resolve" => Driver.ResolveD.handleResolve j
   | "collect" => Driver.CollectD.handle j
+  | "flatten" => Driver.RenderD.handleFlatten j
   | "render" => Driver.RenderD.handle j
   | "specrender" => Driver.RenderD.handleSpec j
   | "ping" => pure (Json.mkObj [("pong", Json.bool true)])
